@@ -76,6 +76,15 @@ MATRIX = [
     dict(entry="tool", mode="content", initial="canonical", base_hash="none", new_style="nonl"),
     dict(entry="cli_hydrate", mode="content", initial="absent", base_hash="none"),
     dict(entry="cli_hydrate", mode="content", initial="canonical", base_hash="none", fmode=0o600),
+    # unusual targets and debris
+    dict(entry="tool", mode="content", initial="absent", base_hash="none", odd="target_is_dir"),
+    dict(entry="atomic", mode="content", initial="absent", base_hash="none", odd="target_is_dir"),
+    dict(entry="tool", mode="content", initial="absent", base_hash="none", odd="parent_is_file"),
+    dict(entry="cli_write", mode="content", initial="absent", base_hash="none", odd="parent_is_file"),
+    dict(entry="tool", mode="content", initial="canonical", base_hash="current", odd="debris"),
+    dict(entry="atomic", mode="content", initial="canonical", base_hash="none", odd="debris"),
+    dict(entry="tool", mode="content", initial="absent", base_hash="none", odd="long_name"),
+    dict(entry="tool", mode="changes", initial="canonical", base_hash="none", odd="debris"),
 ]
 
 
@@ -129,6 +138,14 @@ def gen_scenario(t: Tape, idx: int, tier: str) -> dict:
                                               ("longline", 1), ("nonl", 1), ("trail", 1)], "sc.ns3")
         if entry == "tool" and sc["mode"] != "content" and t.flag(60, "sc.dry2"):
             sc["args"] = {"corrections_only": True}
+        if t.flag(80, "sc.odd"):
+            sc["odd"] = t.pick(["target_is_dir", "parent_is_file", "debris", "long_name"], "sc.oddk")
+            if sc["odd"] in ("target_is_dir", "parent_is_file", "long_name"):
+                sc["initial"] = "absent"
+                sc["parent_missing"] = 0
+                if sc["mode"] != "content":
+                    sc["mode"] = "content"
+                    sc["new_style"] = "canonical"
         if entry == "cli_write" and sc["mode"] == "content":
             sc["stdin"] = bool(t.choose(2, "sc.stdin"))
             sc["new_style"] = t.pick(["canonical", "unicode", "nonl"], "sc.cns")
@@ -229,10 +246,23 @@ def layout(sc: dict):
     """(tree spec, target rel path)"""
     spec = [("d", "sb", 0o755)]
     sub = ["", "p1/", "p1/p2/"][sc.get("parent_missing", 0)]
-    target_rel = "sb/" + sub + TARGET_NAME
+    odd = sc.get("odd")
+    name = TARGET_NAME if odd != "long_name" else ("n" * 240 + ".oct.md")
+    if odd == "parent_is_file":
+        sub = "pfile/"
+        spec.append(("f", "sb/pfile", b"i am a regular file, not a directory\n", 0o644))
+    target_rel = "sb/" + sub + name
     init = _dec(sc.get("initial_data"))
-    if init is not None:
+    if odd == "target_is_dir":
+        spec.append(("d", target_rel, 0o755))
+        spec.append(("f", target_rel + "/inside.txt", b"content of the directory\n", 0o644))
+    elif init is not None:
         spec.append(("f", target_rel, init, sc.get("fmode", 0o644)))
+    if odd == "debris":
+        # what a crashed earlier writer leaves: temp files next to the target, one of them under the very name the next
+        # writer's (deterministic) name sequence starts with
+        for nm in ("tmpa0n000001.tmp", "tmps0000001.tmp", "tmpzzzzzzzz.tmp", ".t.oct.md.tmp"):
+            spec.append(("f", "sb/" + sub + nm, b"half written by a writer that died\n", 0o600))
     if sc.get("siblings"):
         spec.append(("f", "sb/sibling.oct.md", b"===SIB===\nS::1\n===END===\n", 0o644))
         spec.append(("f", "sb/notes.txt", b"do not touch\n", 0o600))
@@ -544,6 +574,8 @@ def judge(case: dict, r: dict, acc: set) -> list[dict]:
     def a1_ok(node):
         if node is None:
             return tb is None
+        if tb is not None and tb[0] != "f" and node[:2] == tb[:2]:
+            return True  # the target was not a regular file (a directory) and still is exactly that
         if node[0] != "f" or node[2] is None:
             return False
         if tb is not None and tb[0] == "f" and node[2] == tb[2]:
